@@ -270,7 +270,7 @@ def run_module(res: Result, ctx: Ctx, mi: int, hs: List[Tuple[str, ...]], srcdir
                 glob = [f for f in flag if f == "--disable-type-rewriting"]
                 sub = [f for f in flag if f != "--disable-type-rewriting"]
                 try:
-                    rc = cli.main(["-c", "mcfg:CONFIG"] + glob + ["stub", modname] + sub, out, err)
+                    rc = cli.main(["-c", "mcfg:fresh()"] + glob + ["stub", modname] + sub, out, err)
                 except SystemExit as e:
                     raise HarnessError(f"argparse rejected the command line: {e}")
                 except Exception as e:  # noqa: BLE001
@@ -316,7 +316,7 @@ def run_module(res: Result, ctx: Ctx, mi: int, hs: List[Tuple[str, ...]], srcdir
             res.states += 1
             case = {"module": mi, "k": k, "rewriter": "DEFAULT", "flag": -1, "tier": ctx.tier, "fn": m["fn"]}
             try:
-                rc = cli.main(["-c", "mcfg:CONFIG", "stub", f"{modname}:{qual}"], out, err)
+                rc = cli.main(["-c", "mcfg:fresh()", "stub", f"{modname}:{qual}"], out, err)
             except BaseException as e:  # noqa: BLE001
                 res.violate(Violation(ID, "exception", "single-function-stub", case, f"stub {qual} raised {e!r}"))
                 continue
